@@ -378,5 +378,64 @@ theorem trie_r (cls : List Cluster) (hcls : ∀ cl ∈ cls, ∀ g ∈ cl, g.min 
   obtain ⟨h1, _, h3, _, h5⟩ := trie_foldl_r cls hcls Dfa.empty empty_goodR
   exact ⟨h1.tree, h3, h5, h1.ralpha⟩
 
+theorem trie_rangeOK (cls : List Cluster) (hcls : ∀ cl ∈ cls, ∀ g ∈ cl, g.min = g.max) : RangeOK (trie cls) :=
+  (trie_foldl_r cls hcls Dfa.empty empty_goodR).1.range
+
+/-! ### a property of all labels -/
+
+/-- a property of the inserted grapheme and of every widened label is a property of every label afterwards -/
+theorem step_labels_r (P : Grapheme → Prop) (d : Dfa) (cur : Nat) (g : Grapheme) (hg : P g) (hd : ∀ e ∈ d.edges, P e.label)
+    (hw : ∀ e ∈ d.edges, e.label.chars = g.chars → P (Grapheme.mk g.chars [] (Nat.min e.label.min g.min) (Nat.max e.label.max g.max))) :
+    ∀ e ∈ (step d cur g).1.edges, P e.label := by
+  unfold step
+  cases hf : findNext g (d.outEdges cur) with
+  | none =>
+    intro e he
+    simp only [List.mem_append, List.mem_cons, List.mem_nil_iff, or_false] at he
+    rcases he with he | rfl
+    · exact hd e he
+    · exact hg
+  | some r =>
+    obtain ⟨nxt, o⟩ := r
+    obtain ⟨e0, he0, _, hch, hcase⟩ := findNext_some g _ nxt o hf
+    obtain ⟨hee0, _⟩ := (mem_outEdges' d cur e0).mp he0
+    rcases hcase with ⟨rfl, _⟩ | ⟨rfl, _⟩
+    · exact hd
+    · intro x hx
+      obtain ⟨x0, hx0, rfl⟩ := (mem_updateEdge _ _ _ _ _).mp hx
+      split
+      · exact hw e0 hee0 hch
+      · exact hd x0 hx0
+
+theorem trie_labels_r (P : Grapheme → Prop)
+    (hw : ∀ a g : Grapheme, P a → P g → a.chars = g.chars → P (Grapheme.mk g.chars [] (Nat.min a.min g.min) (Nat.max a.max g.max)))
+    (cls : List Cluster) (hcls : ∀ cl ∈ cls, ∀ g ∈ cl, P g) : ∀ e ∈ (trie cls).edges, P e.label := by
+  have hfold : ∀ (cl : Cluster), (∀ g ∈ cl, P g) → ∀ (acc : Dfa × Nat), (∀ e ∈ acc.1.edges, P e.label) →
+      ∀ e ∈ (cl.foldl insertFold acc).1.edges, P e.label := by
+    intro cl
+    induction cl with
+    | nil => intro _ acc h; exact h
+    | cons g rest ih =>
+      intro hcl acc h
+      simp only [List.foldl_cons]
+      apply ih (fun x hx => hcl x (List.mem_cons_of_mem _ hx))
+      have hg := hcl g List.mem_cons_self
+      exact step_labels_r P { acc.1 with alphabet := alphaInsert g acc.1.alphabet } acc.2 g hg h
+        (fun e he hc => hw e.label g (h e he) hg hc)
+  have hins : ∀ (d : Dfa) (cl : Cluster), (∀ g ∈ cl, P g) → (∀ e ∈ d.edges, P e.label) → ∀ e ∈ (insert d cl).edges, P e.label := by
+    intro d cl hcl hd
+    rw [insert_eq]
+    exact hfold cl hcl (d, d.init) hd
+  have hall : ∀ (cls : List Cluster), (∀ cl ∈ cls, ∀ g ∈ cl, P g) → ∀ (d : Dfa), (∀ e ∈ d.edges, P e.label) →
+      ∀ e ∈ (cls.foldl insert d).edges, P e.label := by
+    intro cls
+    induction cls with
+    | nil => intro _ d h; exact h
+    | cons cl rest ih =>
+      intro hc d h
+      simp only [List.foldl_cons]
+      exact ih (fun c hcc => hc c (List.mem_cons_of_mem _ hcc)) _ (hins d cl (hc cl List.mem_cons_self) h)
+  exact hall cls hcls Dfa.empty (by intro e he; simp [Dfa.empty] at he)
+
 end Dfa
 end Grexv
